@@ -508,9 +508,13 @@ impl InflightRequests {
             return;
         }
 
+        // Keep timed out requests around for a few more timeouts, a late response is the
+        // only sample that can teach us that the round trip time is above the current timeout.
+        let retention = self.request_timeout() * 4;
+
         let index = match self
             .requests
-            .binary_search_by(|request| self.request_timeout().cmp(&request.sent_at.elapsed()))
+            .binary_search_by(|request| retention.cmp(&request.sent_at.elapsed()))
         {
             Ok(index) => index,
             Err(index) => index,
